@@ -19,6 +19,7 @@ import (
 	"github.com/gopher-fleece/gleece/v2/definitions"
 	"github.com/gopher-fleece/gleece/v2/graphs/symboldg"
 	"github.com/gopher-fleece/gleece/v2/infrastructure/logger"
+	"github.com/gopher-fleece/gleece/v2/infrastructure/verifhook"
 )
 
 type GleeceFlattenedMetadata struct {
@@ -176,6 +177,7 @@ func (p *GleecePipeline) getImports(controllers []definitions.ControllerMetadata
 
 	for pkgPath, importSet := range imports {
 		plainImportsMap[pkgPath] = importSet.ToSlice()
+		plainImportsMap[pkgPath] = verifhook.Permute("imports", plainImportsMap[pkgPath], func(name string) string { return name })
 	}
 
 	return plainImportsMap
